@@ -1014,6 +1014,13 @@ func (e *Eval) call(x *spec.Call) SV {
 	case "sameslice":
 		a, b := e.Eval(x.Args[0]), e.Eval(x.Args[1])
 		return boolSV(smt.Eq(a.Term, b.Term))
+	case "samestr": // the same substring of the same underlying text (not just equal content)
+		a, b := e.Eval(x.Args[0]), e.Eval(x.Args[1])
+		if a.T == nil || b.T == nil || !isString(a.T) || !isString(b.T) {
+			e.fail("samestr takes two strings")
+		}
+		return boolSV(smt.And(smt.Eq(StrLen(a.Term), StrLen(b.Term)), smt.Or(smt.Eq(StrLen(a.Term), bv64(0)),
+			smt.And(smt.Eq(StrArr(a.Term), StrArr(b.Term)), smt.Eq(StrOff(a.Term), StrOff(b.Term))))))
 	case "samehdr": // ref, off, len equal; cap ignored
 		a, b := e.Eval(x.Args[0]), e.Eval(x.Args[1])
 		return boolSV(smt.And(smt.Eq(SlRef(a.Term), SlRef(b.Term)), smt.Eq(SlOff(a.Term), SlOff(b.Term)), smt.Eq(SlLen(a.Term), SlLen(b.Term))))
@@ -1075,6 +1082,18 @@ func (e *Eval) call(x *spec.Call) SV {
 			}
 		case *spec.TypeE:
 			te = a.T
+		case *spec.Unary:
+			// *T and *pkg.T
+			if a.Op == "*" {
+				switch in := a.X.(type) {
+				case *spec.Ident:
+					te = &spec.TypeExpr{Kind: "ptr", Elem: &spec.TypeExpr{Kind: "name", Name: in.Name}}
+				case *spec.Selector:
+					if id, ok := in.X.(*spec.Ident); ok {
+						te = &spec.TypeExpr{Kind: "ptr", Elem: &spec.TypeExpr{Kind: "name", Pkg: id.Name, Name: in.Name}}
+					}
+				}
+			}
 		}
 		if te == nil {
 			e.fail("typeis: second argument must be a type")
